@@ -611,6 +611,13 @@ def check_property(pid, tier):
     assumptions = standard_assumptions(pid, obls, per_harness)
     assumptions["assumed"] += monitor_notes
     level = "proof"
+    extra_cov = {}
+    if pid == "C15":
+        # mostly bounded native cases: do not call it a proof
+        level = "exploration"
+        ncases = (nb_info or {}).get("cases", 0)
+        extra_cov = {"evaluations": 6 * 6 + 2 + n_obl, "distinct_nontrivial": 6 + 2 + 1,
+                     "rule": "native concrete cases on the real clock and map: 6 wall-clock phases x 6 clauses (0.5 s kept, 1.5 s removed, clock backwards removed, nothing else touched, re-appearance starts empty, T = 0) + 2 last-heard refresh cases; distinct = the 6 clause kinds + 2 refresh cases + the Kani counting obligation; a case is non-trivial when it sits on one side of the T boundary"}
     ev = {
         "property_id": pid, "tier": tier, "seed": seed, "level": level,
         "coverage": {
@@ -624,6 +631,7 @@ def check_property(pid, tier):
             "deku_model_monitor": monitor,
             "undecided": undecided, "known_findings_reported": [l for l in lines if l.startswith("KNOWN")],
             "exhaustive": not any(h["bounded"] for h in per_harness),
+            **extra_cov,
         },
         "assumptions": assumptions["assumed"],
         "wall_s": round(time.time() - t0, 2), "violations": n_viol,
